@@ -120,6 +120,71 @@ def _is_factor(o):
     return o[0] == "call" and o[1] == "std::ops::Sub::sub" and peel(o[2][0])[0] == "call" and peel(o[2][0])[1].endswith("Decimal::one") and is_param(o[2][1], "percentage")
 
 
+def _sum_of_scaled_entries(P, F, f, acc, ups):
+    """`acc` is a Decimal that starts at zero and receives, once per staker, the `stake` of the entry that the slash has just
+    scaled: `let mut sum = Decimal::zero(); for d in stakers { let e = STAKES.update(.., |e| ..)?; sum += e.stake; }`"""
+    o = acc
+    while o[0] == "vp":
+        o = o[2]
+    addends = []
+    if o[0] == "upd":
+        base = peel(o[1])
+        for pth, v in o[2]:
+            if pth == ("&mut",) and v[0] == "mutby" and v[1].endswith("AddAssign::add_assign") and v[2]:
+                addends.append(v[2][0])
+            else:
+                return False
+    else:
+        al = [peel(x) for x in alts(peel(o))]
+        base = next((x for x in al if x[0] == "call" and x[1].endswith("Decimal::zero")), ("?",))
+        for x in al:
+            if x is base:
+                continue
+            if x[0] == "call" and x[1].endswith("Add::add") and len(x[2]) == 2:
+                addends.append(x[2][1])
+            else:
+                return False
+    if not (base[0] == "call" and base[1].endswith("Decimal::zero")) or len(addends) != 1 or len(ups) != 1:
+        return False
+    u = ups[0]
+    x = addends[0]
+    while x[0] == "vp":
+        x = x[2]
+    scaled_here = False
+    if x[0] == "upd":
+        # `entry.stake *= factor; ..; sum += entry.stake`: the field of the loaded entry after its scaling
+        if not all(pth == ("&mut",) and v[0] == "mutby" and v[1].endswith("MulAssign::mul_assign") and v[2] and _is_factor(v[2][0]) for pth, v in x[2]):
+            return False
+        scaled_here = True
+        x = peel(x[1])
+    if not (x[0] == "field" and x[2] == "stake"):
+        return False
+    e = peel(x[1])
+    ub = u.site[1]
+    if u.form == "update":
+        c = peel(e[1]) if e[0] == "ok" else ("?",)
+        if not (c[0] == "call" and c[1] == "cw_storage_plus::Map::update" and len(c) > 4 and c[4] == (f.key, ub)):
+            return False
+    else:
+        # load / modify / save: the entry that was loaded under that key, after its scaling
+        from rules import stakes as _st
+        if not (scaled_here and _st.existing_entry(e, u.key)):
+            return False
+    # the addition runs once for every staker: same exhaustive loop as the entry update, under no condition on the element
+    from vlib import pipeline
+    adds = [(b, t) for b, t in f.calls() if t["callee"]["key"].endswith(("AddAssign::add_assign", "Add::add")) and
+            any(same_origin(a, addends[0]) for a in P.call_args(f, t, b)[1:])]
+    if len(adds) != 1:
+        return False
+    ab = adds[0][0]
+    lu, la = q.enclosing_loops(P, f, ub), q.enclosing_loops(P, f, ab)
+    if len(lu) != 1 or len(la) != 1 or lu[0][0] != la[0][0]:
+        return False
+    if pipeline._elem_conds(q.conditions_at(P, F, f, ab)) or q.chain_adapters(la[0][1]) not in ([], ["iter"], ["into_iter"]):
+        return False
+    return q.loop_is_exhaustive(f, la[0][0], ab) and q.loop_is_exhaustive(f, la[0][0], ub)
+
+
 def r2_r3(ctx, cfg, R2="C16.R2", R3="C16.R3"):
     F, P = cfg.facts, cfg.prov
     key = SK + "slash"
@@ -129,22 +194,46 @@ def r2_r3(ctx, cfg, R2="C16.R2", R3="C16.R3"):
     cf = cfg_of(f)
     # factor sites
     n = 0
-    # (a) validator total: the mul_floor whose result is stored as the new total
-    mf_all = [(b, t) for b, t in f.calls() if t["callee"]["key"].endswith("Uint128::mul_floor")]
-    mf = [(b, t) for b, t in mf_all if contains(P.call_args(f, t, b)[0], lambda x: x[0] == "field" and x[2] == "stake")]
-    ok = len(mf) == 1
-    if ok:
-        a = P.call_args(f, mf[0][1], mf[0][0])
-        ok = _is_factor(a[1])
+    # (a) validator total.  The stakers' entries keep fractions of a token (Decimal `stake`), the validator's total is whole
+    # tokens, and `update_stake` subtracts every undelegated amount from both: the total has to be derived from the entries -
+    # floor(sum of the scaled entries) - where stakers remain.  Scaling and flooring the previous total on its own compounds
+    # the floors: 13 staked, slashed by 70 % and then by 10 %, leaves an entry of 3.51 (a delegation of 3 is shown) and a
+    # total of floor(floor(13 * 0.3) * 0.9) = 2, and the delegator's valid `Undelegate 3` fails with an underflow.
+    n_expected = 2
+    tw = [(b, i, st) for b, i, st in f.stmts() if st["k"] == "assign" and st["dst"]["p"] and st["dst"]["p"][-1]["k"] == "field" and
+          st["dst"]["p"][-1]["name"] == "stake" and st["dst"]["p"][-1].get("of", "").startswith("staking::ValidatorInfo")]
+    prelim, summed, other = [], [], []
+    from rules import stakes as _stakes
+    ups0 = _stakes.entry_updates(P, F, f)
+    for b, i, st in tw:
+        v = peel(P.rvalue(f, st["rv"], (b, i)))
+        if v[0] == "call" and v[1].endswith("Uint128::mul_floor") and peel(v[2][0])[0] == "field" and peel(v[2][0])[2] == "stake" and _is_factor(v[2][1]):
+            prelim.append((b, i, st))
+        elif v[0] == "call" and v[1].endswith("Uint128::mul_floor") and peel(v[2][0])[0] == "call" and peel(v[2][0])[1].endswith("Uint128::new") and \
+                peel(peel(v[2][0])[2][0]) == ("const", "int", 1) and _sum_of_scaled_entries(P, F, f, v[2][1], ups0):
+            summed.append((b, i, st))
+        else:
+            other.append((b, i, fmt(v)[:100]))
+    # ("p = 1 removes the delegations entirely": whether anything is left is decided on the scaled previous total)
+    ok = len(summed) == 1 and not other and len(prelim) == 1
+    d = "validator total is written as %s" % ([x[2] for x in other] or ("the previous total scaled and floored on its own" if prelim and not summed else
+                                                  "the sum alone: nothing decides whether everything is gone" if summed and not prelim else "-"))
+    svv0 = store_calls(P, f, VINFO, ("save",))
+    if ok and prelim:
+        # the scaled previous total may only decide "everything is gone" (its zero test); where stakers remain, the sum replaces
+        # it before the record is saved
+        n_expected = 3
         n += 1
-        # and the product is what is stored as the new total
-        svv0 = store_calls(P, f, VINFO, ("save",))
-        if ok and len(svv0) == 1:
-            rec0 = P.call_args(f, svv0[0][1], svv0[0][0])[3]
-            while rec0[0] == "vp":
-                rec0 = rec0[2]
-            ok = rec0[0] == "upd" and any(p == ("stake",) and contains(v, lambda x: x[0] == "call" and x[1].endswith("Uint128::mul_floor")) for p, v in rec0[2])
-    ctx.ob(R2, key, "total-stake=floor(stake*(1-p))", ok, "validator total is not stake.mul_floor(1 - percentage)", fn=f, sample="validator_info.stake.mul_floor(Decimal::one() - percentage)")
+        zg = [g for g in q.guards(P, f) if g[1] == "is_zero" and contains(g[2][0], lambda x: x[0] == "field" and x[2] == "stake")]
+        ok = len(zg) == 1 and len(svv0) == 1
+        if ok:
+            gb, _p, _a, e_true, e_false = zg[0]
+            ok = svv0[0][0] not in cf.reachable_from(e_false, avoid=[summed[0][0]]) and summed[0][0] not in cf.reachable_from(e_true, avoid=[])
+            d = "where stakers remain the record can be saved with the scaled previous total instead of the sum of the entries"
+    ctx.ob(R2, key, "total-stake=floor(sum of the scaled entries)", ok,
+           "%s: the stakers' entries keep fractions, the total has to be floor(sum of the scaled entries) where stakers remain - a total floored on its own at "
+           "every slash drifts below a single delegation (13 staked, slashes of 70 %% and 10 %%: entry 3.51, total 2) and a valid Undelegate fails" % d, fn=f,
+           sample="validator_info.stake = floor(sum of entry.stake * (1 - p))")
     # (b) stakers: closure of STAKES.update multiplies `stake` by the factor and touches nothing else
     # (b) stakers: each existing entry is updated in place - `STAKES.update(key, |e| ..)` or load / modify / save (rules/stakes.py) -
     # by multiplying `stake` with the factor, and nothing else of the entry changes
@@ -206,7 +295,7 @@ def r2_r3(ctx, cfg, R2="C16.R2", R3="C16.R3"):
         ok = ok and len(loops) == 1 and not bad
     ctx.ob(R3, key, "only-unbondings-of-that-validator", okf, "the queue entry is slashed under %s" % (fd,), fn=f, sample="ub.validator == validator")
     ctx.ob(R2, key, "pending-unbondings=floor(amount*(1-p))", ok, "queue update is %s" % d, fn=f, sample=d)
-    ctx.ob(R2, key, "one-factor-three-sites", n == 3, "the factor (1 - percentage) is applied at %d sites, expected 3" % n, fn=f, sample="3")
+    ctx.ob(R2, key, "one-factor-at-every-site", n == n_expected, "the factor (1 - percentage) is applied at %d sites, expected %d" % (n, n_expected), fn=f, sample=str(n_expected))
     sv = store_calls(P, f, QUEUE, ("save",))
     ok = len(sv) == 1 and contains(P.call_args(f, sv[0][1], sv[0][0])[2], lambda x: x[0] == "call" and x[1] == "cw_storage_plus::Item::may_load")
     ctx.ob(R2, key, "slashed-queue-saved", ok, "the slashed queue is not saved", fn=f, sample="UNBONDING_QUEUE.save(queue)")
